@@ -34,7 +34,18 @@ pub const ALNUM: &[u8] = b"abcdefghijklmnopqrstuvwxyzABCDEFGHIJKLMNOPQRSTUVWXYZ0
 pub const ESCAPE_LOOKALIKES: &[&str] = &["%41", "%2F", "%2f", "%zz", "%", "%2e", "%25", "%00", "%C3%A9", "%80"];
 
 /// One hostile character.
+/// A non-ASCII character whose low byte equals the ASCII byte `b` (U+01xx, U+04xx, U+4Exx):
+/// code that truncates `char as u8` would take it for that ASCII character.
+pub fn low_byte_alias(r: &mut Rng, b: u8) -> char {
+    let hi = *r.pick(&[0x0100u32, 0x0400, 0x0600, 0x4E00, 0x1F600]);
+    char::from_u32(hi + b as u32).unwrap_or('\u{12F}')
+}
+
 pub fn hostile_char(r: &mut Rng) -> char {
+    if r.chance(1, 25) {
+        let b = *r.pick(b"/@?#&=:,%+ .-_aA0");
+        return low_byte_alias(r, b);
+    }
     match r.below(100) {
         0..=34 => *r.pick(SEPARATORS),
         35..=59 => *r.pick(ASCII_ODD),
